@@ -25,6 +25,24 @@ pub fn scenarios() -> Vec<Scenario> {
 }
 
 pub fn gen(rng: &mut Rng, tier: Tier, idx: u64) -> Case {
+    if idx % 4 == 3 {
+        // enumerated fixed headers: every control byte x a set of remaining-length spellings
+        // (valid, zero, non-minimal, maximal, over-long), followed by a few random bytes
+        let fam = crate::gen::pick_fam(rng);
+        let mut c = Case::new("C06", "c06-agree", fam, Front::P);
+        let k = idx / 4;
+        let control = (k % 256) as u8;
+        let lens: [&[u8]; 8] = [&[0x00], &[0x02], &[0x7f], &[0x80, 0x00], &[0x82, 0x80, 0x00], &[0xff, 0xff, 0xff, 0x7f], &[0x80, 0x80, 0x80, 0x80, 0x01], &[0xff, 0xff, 0xff, 0xff, 0x7f]];
+        let mut s = vec![control];
+        s.extend_from_slice(lens[((k / 256) % 8) as usize]);
+        let n = rng.urange(0, 8);
+        s.extend_from_slice(&rng.bytes(n));
+        c.stream = Bs(s);
+        let (script, tail) = gen_read_script(rng, 16, 100, &[]);
+        c.read_script = script;
+        c.read_tail = tail;
+        return c;
+    }
     hostile_case(rng, tier, idx, "C06", "c06-agree", 40)
 }
 
